@@ -33,7 +33,7 @@ RULE = ("types: every constructor spine over {Vec, HashSet, Option, Result, Hash
         "1-tuple} to depth 2 (quick) / 3 (thorough) ending in each leaf {string, number, boolean, void, (), struct, enum-like name, mapped name}, "
         "plus random types to depth 6, each rendered by the five renderers and placed at a struct field, a parameter, parameter+channel, "
         "channel only (optionally with an enum and a member-less struct) through both real generators; malformed: 400 / 5000 TypeStructure values and mappings outside the feature set "
-        "(unknown primitives, non-identifier names, non-primitive mapping targets, any key type) where only model = implementation for the five renderers is compared; 350 cases with several parameters per command and several commands whose types render alike in one renderer only (Vec/HashSet, T/Result<T>), 300 cases with mapping targets beyond the primitives (unknown, any, number[], Date, Record, tuple, union) at field/parameter/channel position; 15 % of the type cases use serialised names that need quoting as keys and odd enum literals; projects: random graph projects (tools/projgen.py, incl. tuples of generics, renamed fields, raw identifiers), projects with recursive and mutually recursive types beside unrelated roots (digraphs on three structs incl. self-loops, roots through parameter / return / channel / event), projects whose command names derive colliding type names with different parameter lists (declarations judged by occurrence and multiplicity), event projects (several emit sites per event name with different payload types, nested payload dependencies, several files), type_mappings whose keys are external names or project-defined types, and an oracle-only stream crossing defaultParameterCase / defaultFieldCase / includePrivate / typeMappings with both modes, generated by the "
+        "(unknown primitives, non-identifier names, non-primitive mapping targets, any key type) where only model = implementation for the five renderers is compared; 350 cases with several parameters per command and several commands whose types render alike in one renderer only (Vec/HashSet, T/Result<T>), 300 cases with mapping targets beyond the primitives (unknown, any, number[], Date, Record, tuple, union) at field/parameter/channel position; 15 % of the type cases use serialised names that need quoting as keys and odd enum literals; projects: random graph projects (tools/projgen.py, incl. tuples of generics, renamed fields, raw identifiers), projects with recursive and mutually recursive types beside unrelated roots (digraphs on three structs incl. self-loops, roots through parameter / return / channel / event), projects whose command names derive colliding type names with different parameter lists (declarations judged by occurrence and multiplicity), projects with one struct whose fields sample the cross product validator attribute x mapped type (primitive / non-primitive target) x Option x serde rename / skip, event projects (several emit sites per event name with different payload types, nested payload dependencies, several files), type_mappings whose keys are external names or project-defined types, and an oracle-only stream crossing defaultParameterCase / defaultFieldCase / includePrivate / typeMappings with both modes, generated by the "
         "real CLI in both modes. Non-trivial = the type has at least one constructor / the project emits at least one struct; "
         "distinct = distinct cases")
 TRUSTED = [
@@ -603,6 +603,43 @@ def gen_cyclic_project(rng, mask=None):
     return {"files": {k: v for k, v in files.items() if v}, "config": {}}
 
 
+CROSS_MAP = {"Uuid": "string", "Decimal": "number", "Flag": "boolean", "TagList": "string[]", "Meta": "Record<string, string>",
+             "Anything": "unknown", "Pair": "[string, number]"}
+CROSS_VALIDATE = [None, {"length": {"min": 1, "max": 10}}, {"length": {"min": 2, "message": "too short"}}, {"range": {"min": 0, "max": 5}},
+                  {"range": {"max": 100, "message": "too big"}}, {"email": {}}, {"url": {}}]
+
+
+def cross_fields(rng, k):
+    """the cross product on ONE field: validator attribute x (un)mapped type with primitive / non-primitive target
+    x Option or not x serde rename / skip / nothing"""
+    P = projgen.P
+    combos = []
+    types = [P(n) for n in CROSS_MAP] + [P("String"), P("u32"), P("Vec", P("String")), P("Vec", P("TagList")), P("HashMap", P("String"), P("Uuid"))]
+    for t in types:
+        for opt in (False, True):
+            for v in CROSS_VALIDATE:
+                for sd in ("none", "rename", "skip"):
+                    combos.append((t, opt, v, sd))
+    out = []
+    for i, (t, opt, v, sd) in enumerate(rng.sample(combos, k)):
+        f = {"name": "f%d_%s" % (i, (t["name"] if not t["args"] else t["name"] + t["args"][-1]["name"]).lower()),
+             "ty": P("Option", t) if opt else t, "serde": [], "validate": [v] if v else []}
+        if sd == "rename":
+            f["serde"] = [{"rename": rng.choice(["renamed", "re-named", "Re Named"]) + str(i)}]
+        elif sd == "skip":
+            f["serde"] = [{"skip": True}]
+        out.append(f)
+    return out
+
+
+def gen_cross_project(rng):
+    P = projgen.P
+    form = {"kind": "struct", "name": "Form", "derives": ["Serialize", "Deserialize", "Validate"], "serde": [], "fields": cross_fields(rng, rng.randint(6, 10))}
+    fns = [{"kind": "fn", "name": "submit", "attrs": [["tauri", "command"]], "async": True, "vis": "pub",
+            "params": [{"name": "form", "ty": P("Form")}, {"name": "draft", "ty": P("bool")}], "ret": P("Result", P("Form"), P("String")), "body": []}]
+    return {"files": {"src/lib.rs": [form] + fns}, "config": {"typeMappings": dict(CROSS_MAP)}}
+
+
 COLLIDING = [["get_user2", "get_user_2"], ["save", "save"], ["load_it", "loadIt"], ["fetch_all", "fetchAll", "fetch_all"], ["ping", "Ping"]]
 
 
@@ -650,6 +687,8 @@ def project_cases(tier, rng):
         cases.append({"id": "cyclic-%d" % i, "project": gen_cyclic_project(rng, mk), "clean": False})
     for i in range(n // 5):
         cases.append({"id": "collide-%d" % i, "project": gen_collision_project(rng), "clean": False})
+    for i in range(n // 3):
+        cases.append({"id": "cross-%d" % i, "project": gen_cross_project(rng), "clean": False})
     for i in range(n // 4):
         c = gen_event_project(rng)
         if rng.random() < 0.3:
